@@ -393,6 +393,7 @@ func (f *LedgerFs) Stat(name string) (os.FileInfo, error) {
 	}
 	return f.Fs.Stat(name)
 }
+
 // LstatIfPossible passes the optional interface of the wrapped filesystem through (a decorator that hides it would
 // change what the code under test can know about links); counted and faultable like Stat.
 func (f *LedgerFs) LstatIfPossible(name string) (os.FileInfo, bool, error) {
